@@ -79,7 +79,7 @@ def run(ctx):
     ctx.cov['samples'] = [dict(tlc_schedule=scheds[0]['sched']), dict(recorded_events=rc.sample_events(traces[-1], 6, skip_snap=False))]
     ctx.cov['schedules_replayed'] = len(scheds)
     # 4. TLC searches a linearization of every recorded history
-    vlib.judge_traces(ctx, 'LinTrace', 'LinTrace.cfg', traces, strict=STRICT, shard_lines=300, label='histories vs OciRegistry (linearizability)')
+    vlib.judge_traces(ctx, 'LinTrace', 'LinTrace.cfg', traces, strict=STRICT, shard_lines=1500, label='histories vs OciRegistry (linearizability)')
     ctx.assumptions += ['data-race freedom is what the Go race detector observes on the schedules run (TLA+ has no Go memory model)',
                         'real-time order from a global atomic sequence number taken at invocation and at return']
     return vlib.finish(ctx, rule='all interleavings of the model at critical-section granularity are replayed on the real ocimem with the yield hooks as scheduler gates; '
